@@ -380,7 +380,7 @@ Qed.
 
 Lemma restale_op_dests t llgr addr :
   let fl' := restale_flags llgr addr (t_dests t) (t_flags t) in
-  t_dests (fst (restale_op t llgr addr)) = mp (fun n d => fst (restale_dest fl' addr n d)) (t_dests t)
+  t_dests (fst (restale_op t llgr addr)) = mp (fun n d => fst (restale_dest fl' llgr addr n d)) (t_dests t)
   /\ t_flags (fst (restale_op t llgr addr)) = fl'.
 Proof.
   unfold restale_op. cbv zeta. cbn [fst t_dests t_flags]. split; [|reflexivity].
